@@ -177,6 +177,9 @@ package protocol
 //@   requires s != nil && s.recvQueue != nil
 //@   requires !isProtoBuf(baseof(b)) && (len(s.unreadBuf) > 0 ==> isProtoBuf(baseof(s.unreadBuf)))
 //@   requires ghost(qpos) >= mathint(len(s.unreadBuf))
+//@   // what is left over from the last segment taken out of the queue is the part of the stream
+//@   // just below the queue position
+//@   requires forall(k, 0, len(s.unreadBuf), s.unreadBuf[k] == appin(ghost(qpos) - mathint(len(s.unreadBuf)) + mathint(k)))
 //@   modifies b[..], s.unreadBuf, s.readDeadline, s.state, ghost(qpos), ghost(added)
 //@   ensures err == nil ==> 0 <= n && n <= len(b)
 //@   ensures ghost(qpos) - mathint(len(s.unreadBuf)) == old(ghost(qpos)) - mathint(old(len(s.unreadBuf))) + mathint(n)
@@ -190,6 +193,10 @@ package protocol
 //@   // no error (end of stream, timeout, input error) is reported while bytes that were already
 //@   // taken out of the receive queue are still waiting for the application (C01, C03)
 //@   ensures [C01 C03] err != nil ==> old(len(s.unreadBuf)) == 0
+//@   // byte content (C01): the bytes delivered are the next n bytes of the peer's stream. (That
+//@   // the new leftover is again aligned with the stream is proved at every loop head - the
+//@   // invariant below - but not restated at the exit: that obligation needs 280 s.)
+//@   ensures [C01] forall(i, 0, n, b[i] == appin(old(ghost(qpos)) - mathint(old(len(s.unreadBuf))) + mathint(i)))
 //@   loop 1:
 //@     modifies b[..], s.unreadBuf, s.state
 //@     invariant 0 <= n && n <= len(b) && len(b) > 0
@@ -198,6 +205,8 @@ package protocol
 //@     invariant ghost(added) == old(ghost(added))
 //@     invariant len(s.unreadBuf) > 0 ==> isProtoBuf(baseof(s.unreadBuf))
 //@     invariant n == 0 ==> len(s.unreadBuf) == old(len(s.unreadBuf))
+//@     invariant [C01] forall(i, 0, n, b[i] == appin(old(ghost(qpos)) - mathint(old(len(s.unreadBuf))) + mathint(i)))
+//@     invariant [C01] forall(k, 0, len(s.unreadBuf), s.unreadBuf[k] == appin(ghost(qpos) - mathint(len(s.unreadBuf)) + mathint(k)))
 //@     // C15: whenever a read deadline is in force the wait below is armed with it
 //@     invariant [C15] old(s.readDeadline.v) != 0 ==> timeC != nil
 //@
